@@ -11,6 +11,7 @@ import time
 from fractions import Fraction
 
 import z3
+from . import cross
 
 from .ratfn import RatFn, Poly
 from . import ratfn
@@ -931,8 +932,10 @@ def check_sat(constraints, timeout_ms=20000, tactic=None):
     ENG.solver_s += time.time() - t0
     ENG.nqueries += 1
     if r == z3.sat:
+        cross.maybe(s, 'sat')
         return 'sat', s.model()
     if r == z3.unsat:
+        cross.maybe(s, 'unsat')
         return 'unsat', None
     if tactic is None:
         rr = check_sat(constraints, timeout_ms, 'qfnra-nlsat')
